@@ -293,9 +293,40 @@ program!(c01_alpha_passthrough, "C01", "quick", sv,
     T::ensure("attach.alpha_is_opaque", T::p_eq(&attached.alpha, &T::k(1.0)));
 });
 
+program!(c01_cross_standard, "C01", "quick", v,
+    "FromColorUnclamped<Hsl<S1>> for Hsl<S2>, <Hsv<S1>> for Hsv<S2>, <Hwb<S1>> for Hwb<S2>, <Rgb<S1>> for Rgb<S2> (TypeId shortcuts) [hsl.rs, hsv.rs, hwb.rs, rgb/rgb.rs]",
+    "E-comp across RGB standards: a direct cylinder-to-cylinder conversion between two standards yields the SAME terms as going through Rgb<S1> -> Rgb<S2>; between identical standards it is the identity (same terms); Srgb <-> Linear<Srgb> differ only by the transfer function",
+{
+    use palette::encoding::Rec2020;
+    let (h, s, l) = (T::var("h", 0.0, 360.0), T::var("s", 0.0, 1.0), T::var("l", 0.0, 1.0));
+    let a: Hsl<Srgb, T> = Hsl::new(h, s, l);
+    let d: Hsl<Linear<Srgb>, T> = Hsl::from_color_unclamped(a);
+    let via: Hsl<Linear<Srgb>, T> = Hsl::from_color_unclamped(palette::rgb::Rgb::<Linear<Srgb>, T>::from_color_unclamped(palette::rgb::Rgb::<Srgb, T>::from_color_unclamped(a)));
+    T::identical("hsl.srgb_to_linear.h", &d.hue.into_raw_degrees(), &via.hue.into_raw_degrees());
+    T::identical("hsl.srgb_to_linear.s", &d.saturation, &via.saturation);
+    T::identical("hsl.srgb_to_linear.l", &d.lightness, &via.lightness);
+    let same: Hsl<Srgb, T> = Hsl::from_color_unclamped(a);
+    T::identical("hsl.same_standard_identity.s", &same.saturation, &s);
+    T::identical("hsl.same_standard_identity.l", &same.lightness, &l);
+    let d2: Hsl<Rec2020, T> = Hsl::from_color_unclamped(a);
+    let via2: Hsl<Rec2020, T> = Hsl::from_color_unclamped(palette::rgb::Rgb::<Rec2020, T>::from_color_unclamped(palette::rgb::Rgb::<Srgb, T>::from_color_unclamped(a)));
+    T::identical("hsl.srgb_to_rec2020.s", &d2.saturation, &via2.saturation);
+    T::identical("hsl.srgb_to_rec2020.l", &d2.lightness, &via2.lightness);
+    let v: Hsv<Srgb, T> = Hsv::new(h, s, l);
+    let dv: Hsv<Linear<Srgb>, T> = Hsv::from_color_unclamped(v);
+    let viav: Hsv<Linear<Srgb>, T> = Hsv::from_color_unclamped(palette::rgb::Rgb::<Linear<Srgb>, T>::from_color_unclamped(palette::rgb::Rgb::<Srgb, T>::from_color_unclamped(v)));
+    T::identical("hsv.srgb_to_linear.s", &dv.saturation, &viav.saturation);
+    T::identical("hsv.srgb_to_linear.v", &dv.value, &viav.value);
+    let r: palette::rgb::Rgb<Srgb, T> = palette::rgb::Rgb::new(s, l, T::var("b", 0.0, 1.0));
+    let lin: palette::rgb::Rgb<Linear<Srgb>, T> = palette::rgb::Rgb::from_color_unclamped(r);
+    T::identical("rgb.srgb_to_linear_is_transfer_function_only", &lin.red, &r.into_linear().red);
+    let same_rgb: palette::rgb::Rgb<Srgb, T> = palette::rgb::Rgb::from_color_unclamped(r);
+    T::identical("rgb.same_standard_identity", &same_rgb.green, &l);
+});
+
 pub fn all() -> Vec<crate::Prog> {
     vec![c01_xyz_lab_xyz::prog(), c01_lab_xyz_lab::prog(), c01_xyz_luv_xyz::prog(), c01_xyz_yxy_xyz::prog(),
          c01_linsrgb_xyz_linsrgb::prog(), c01_srgb_transfer_rt::prog(), c01_rgb_hsv_rgb::prog(), c01_rgb_hsl_rgb::prog(),
          c01_hsv_hwb_hsv::prog(), c01_hsv_hsl_hsv::prog(), c01_xyz_oklab_xyz::prog(), c01_lab_lch_lab::prog(),
-         c01_luv_lchuv_luv::prog(), c01_oklab_oklch_oklab::prog(), c01_direct_vs_stepwise::prog(), c01_alpha_passthrough::prog()]
+         c01_luv_lchuv_luv::prog(), c01_oklab_oklch_oklab::prog(), c01_direct_vs_stepwise::prog(), c01_alpha_passthrough::prog(), c01_cross_standard::prog()]
 }
